@@ -1289,3 +1289,105 @@ def sequence_checks(ctx, K, rng, cases, meta, bump, ref_decrypt=None, ref_encryp
 
 def json_respaced(t):
     return real_json.dumps(real_json.loads(t), separators=(", ", ": "))
+
+
+# --------------------------------------------------------------------------
+# falsy-but-valid values for every optional input of the round trip
+# --------------------------------------------------------------------------
+def falsy_checks(ctx, K, rng, cases, meta, bump, ref_decrypt=None, coq_cases=True):
+    """aad in {None, b"", b"\\x00", text}; plaintext b""; unprotected / per-recipient header None vs {};
+    apu / apv ""; kid ""; p2s "".  Each must round trip (joserfc, and the strict reference when given) or be refused
+    at ENCRYPTION time - never yield a token the right key cannot decrypt."""
+    def one(label, ser, protected, pt, recips, unprotected=None, aad=None, sender=None):
+        ctx.note_case(("falsy", label, ser))
+        bump("falsy")
+        obs, info = do_encrypt(ser, protected, pt, recips, unprotected=unprotected, aad=aad, sender=sender)
+        if coq_cases and not info["nondet"] and table_chars(info["log"]) < 40000:
+            cases.append(case_enc(obs, info)); meta.append(("falsy-enc", label))
+        if obs[0] != "ok":
+            bump("falsy-refused-at-encryption")
+            return
+        token = token_of(obs)
+        keys = [k for _, k in info["recips"]]
+        o2, (dlog, nondet) = do_decrypt(dec_ser(ser), token, keys, sender=sender)
+        if coq_cases and not nondet and table_chars(dlog) < 40000:
+            cases.append(case_dec(dec_ser(ser), token, keys, sender, True, o2, dlog)); meta.append(("falsy-dec", label))
+        rp = {"label": label, "ser": ser, "protected": protected, "unprotected": unprotected,
+              "aad_hex": None if aad is None else aad.hex(), "plaintext_hex": pt.hex(),
+              "recips": [[h, key_jwk(k)] for h, k in recips], "sender": key_jwk(sender), "token": token}
+        if o2[0] != "ok" or o2[1] != pt:
+            ctx.violation({"kind": "falsy-input-undecryptable", "case": label.split(":")[0], "ser": ser},
+                          "encryption accepted a falsy-but-valid input and produced a token the right key does not decrypt "
+                          "(%s): %s" % (label, o2[1] if o2[0] == "err" else "other plaintext"), rp)
+        if ref_decrypt is not None:
+            for i, k in enumerate(keys):
+                try:
+                    good = ref_decrypt(token, k.as_dict(private=True), key_jwk(sender), index=i) == pt
+                    why = "other plaintext"
+                except Exception as e:  # noqa
+                    good, why = False, "%s: %s" % (type(e).__name__, e)
+                if not good:
+                    ctx.violation({"kind": "falsy-input-reference-rejects", "case": label.split(":")[0], "ser": ser},
+                                  "the independent implementation does not decrypt the token for a falsy-but-valid input (%s): %s" % (label, why), rp)
+
+    combos = [("A128KW", "A128CBC-HS256"), ("dir", "A256GCM"), ("ECDH-ES", "A128GCM"), ("A128GCMKW", "C20P"),
+              ("RSA-OAEP", "A256CBC-HS512"), ("ECDH-ES+A128KW", "XC20P")]
+    if not ctx.quick:
+        combos = [(a, e) for a in ALL_ALGS if a not in PU_ALGS for e in ALL_ENCS][::3]
+    hcombos = combos if not ctx.quick else combos[:3]
+    # AAD values x JSON serializations
+    for n, (alg, enc) in enumerate(combos):
+        key = K.for_alg(alg, enc, "P-256")
+        for ser in ("flat", "general"):
+            for aname, aad in (("none", None), ("empty", b""), ("nul", b"\x00"), ("text", b"additional data")):
+                hdr = recipient_header(rng, alg)
+                one("aad-%s:%s/%s" % (aname, alg, enc), ser, {"enc": enc}, b"with aad", [(hdr, key)], aad=aad)
+                one("aad-%s+empty-plaintext:%s/%s" % (aname, alg, enc), ser, {"enc": enc, "zip": "DEF"}, b"", [(hdr, key)], aad=aad)
+    # empty plaintext: every enc, zip on/off, every serialization
+    for enc in ALL_ENCS:
+        for z in (False, True):
+            for ser in ("compact", "flat", "general"):
+                alg = "dir" if enc != "XC20P" else "A256KW"
+                key = K.for_alg(alg, enc)
+                prot = {"enc": enc}
+                if z:
+                    prot["zip"] = "DEF"
+                if ser == "compact":
+                    one("empty-plaintext:%s%s" % (enc, "/DEF" if z else ""), ser, dict(prot, alg=alg), b"", [(None, key)])
+                else:
+                    one("empty-plaintext:%s%s" % (enc, "/DEF" if z else ""), ser, prot, b"", [({"alg": alg}, key)])
+    # unprotected None vs {} ; per-recipient header None vs {} (alg in the protected header)
+    for n, (alg, enc) in enumerate(hcombos):
+        key = K.for_alg(alg, enc, "P-256")
+        for ser in ("flat", "general"):
+            for uname, unprot in (("none", None), ("empty", {})):
+                for hname, hdr in (("none", None), ("empty", {})):
+                    prot = dict({"enc": enc}, **recipient_header(rng, alg))
+                    one("unprotected-%s/header-%s:%s" % (uname, hname, alg), ser, prot, b"headers", [(hdr, key)], unprotected=unprot)
+    # apu / apv "" (empty base64url), kid "", p2s ""
+    for ser in ("compact", "flat", "general"):
+        for alg, enc in (("ECDH-ES", "A128GCM"), ("ECDH-ES+A256KW", "A128CBC-HS256"), ("ECDH-1PU", "A256GCM")):
+            for crv in (("P-256", "X25519") if not ctx.quick else ("P-256",) if ser != "flat" else ("X25519",)):
+                key = K.curve_key(crv)
+                snd = K.curve_key(crv, "sender") if alg in PU_ALGS else None
+                for extra in ({"apu": ""}, {"apv": ""}, {"apu": "", "apv": ""}, {"apu": "", "apv": b64e(b"Bob")}):
+                    h = dict({"alg": alg}, **extra)
+                    if ser == "compact":
+                        one("empty-apu-apv:%s/%s" % (alg, crv), ser, dict({"enc": enc}, **h), b"party info", [(None, key)], sender=snd)
+                    else:
+                        one("empty-apu-apv:%s/%s" % (alg, crv), ser, {"enc": enc}, b"party info", [(h, key)], sender=snd)
+        for alg, enc in (("A128KW", "A128GCM"), ("dir", "A128CBC-HS256")):
+            key = K.for_alg(alg, enc)
+            h = {"alg": alg, "kid": ""}
+            if ser == "compact":
+                one("empty-kid:%s" % alg, ser, dict({"enc": enc}, **h), b"kid", [(None, key)])
+            else:
+                one("empty-kid:%s" % alg, ser, {"enc": enc}, b"kid", [(h, key)])
+                one("empty-kid-unprotected:%s" % alg, ser, {"enc": enc}, b"kid", [({"alg": alg}, key)], unprotected={"kid": ""})
+        for alg in PBES2_ALGS:
+            key = K.for_alg(alg, "A128GCM")
+            h = {"alg": alg, "p2s": "", "p2c": 2}
+            if ser == "compact":
+                one("empty-p2s:%s" % alg, ser, dict({"enc": "A128GCM"}, **h), b"salt input", [(None, key)])
+            else:
+                one("empty-p2s:%s" % alg, ser, {"enc": "A128GCM"}, b"salt input", [(h, key)])
